@@ -8,6 +8,7 @@ import (
 	"bytes"
 	"compress/zlib"
 	"encoding/csv"
+	"fmt"
 	stdhtml "html"
 	"io"
 	"os"
@@ -621,3 +622,6 @@ func ResolveRequested(requested []int, count int) ([]int, error) {
 	}
 	return out, nil
 }
+
+// OpenFailed violates R20.9: the cause is flattened into text.
+func OpenFailed(name string, err error) error { return fmt.Errorf("failed to open %q: %v", name, err) }
